@@ -189,6 +189,20 @@ CHECKS = {
                 "return the object's actual value.",
         "note": "VLAN device (no BVLL under it); replies are unsegmented in this workload; after an effective DeviceCommunicationControl-disable the batch's later expectations are void",
     },
+    "C06": {
+        "level": "exploration",
+        "design_ref": "DESIGN.md 3 C06",
+        "technique": "runtime monitor: graph reachability model + unique tokens for exactly-once delivery, actual reply round trips, per-router hop-count/no-echo observer with an independent NPCI decoder",
+        "text": "Random tree internetworks (2..8 networks, multi-port routers, multi-hop, stations that know or do not know "
+                "their network number, router announcements on/off) are assembled from real NetworkServiceAccessPoint/"
+                "NetworkServiceElement instances on virtual LANs.  For every source x destination kind x destination, cold "
+                "(Who-Is-Router discovery, parked packets) then warm, the set of stations whose upper layer receives the "
+                "token must equal the reachability model exactly once each; every recipient replies to the source address "
+                "it was shown and the reply must reach the originator exactly once; every forwarded copy is decoded "
+                "independently: hop count one lower than the incoming copy, never emitted on the arrival network, never "
+                "forwarded at hop count 0; rings of 3..5 routers bound the frames of a global broadcast.",
+        "note": "router discovery traffic in cyclic topologies (re-originated per hop, no hop count) is outside the statement and not generated",
+    },
 }
 
 NOT_APPLICABLE = {pid: _PENDING for pid in ("C%02d" % i for i in range(1, 21)) if pid not in CHECKS}
